@@ -17,6 +17,12 @@ from .seams import CrashSeam, SolverSeam, install_hash_salt, set_sym_offset, mak
 
 WORLD = None
 
+
+def _solver_unknown(out):
+    return out[0] == "exc" and (
+        "unknown result from z3" in str(out[1]) or type(out[1]).__name__ == "SolverReturnedUnknownResultError"
+    )
+
 # tests of the baseline's always-fail set (need ninja / a C toolchain fixture)
 ALWAYS_FAIL = """
 tests/test_codegen.py::test_alloc_nest tests/test_codegen.py::test_alloc_nest_malloc tests/test_codegen.py::test_bool1
@@ -471,7 +477,9 @@ class World:
         except Exception as e:
             out3 = ("exc", e)
         sig3 = self._outcome_sig(out3)
-        if sig3[0] == "exc" and ref_sig[0] == "exc":
+        if _solver_unknown(ref) or _solver_unknown(out3):
+            self.probes.hit("retry_skipped_solver_unknown")
+        elif sig3[0] == "exc" and ref_sig[0] == "exc":
             self.probes.hit("retry_same" if sig3 == ref_sig else "retry_exc_class_differs")
         elif sig3 != ref_sig:
             self.violation(
@@ -545,7 +553,7 @@ class World:
         for hop, src in enumerate(chain):
             vs = check_forwarding(
                 src, p_out, self.probes, max_stmts=self.cfg.get("fwd_max_stmts", 150), rng=None,
-                want_gaps=(hop == 0), want_blocks=(hop == 0),
+                want_gaps=(hop == 0), want_blocks=(hop == 0), chain=chain[:hop],
             )
             if vs and hop > 0:
                 old = check_forwarding(src, p_in, Probes(), max_stmts=self.cfg.get("fwd_max_stmts", 150), rng=None,
